@@ -56,7 +56,7 @@ def c03(tier, seed):
         ],
         "unverified": [
             "ir/comp.rs bitfields_to_allocation_units in the clang-offset mode; raw_fields_to_fields_and_bitfield_units (grouping of consecutive bit-fields)",
-            "codegen/mod.rs accessor emission: the cast chain / transmute inside the templates (sign extension of signed bit-fields is NOT performed: observed), the names of the accessors; that the unit-start closure is applied to the unit's FIRST bit-field (`bfields.first()`, slice API outside the extracted closure)",
+            "codegen/mod.rs accessor emission: the cast chain / transmute inside the templates beyond 'no template sign-extends' (known finding F18), the names of the accessors; that the unit-start closure is applied to the unit's FIRST bit-field (`bfields.first()`, slice API outside the extracted closure)",
             "big-endian branches; 32-bit usize fast path",
         ],
     }
@@ -252,11 +252,12 @@ INCRATE_TRUST = ["in-crate harness modules pulled in by cfg(kani) hook lines; Ty
 def c04(tier, seed):
     def extra():
         return units_incrate.run_spec(units_incrate.abi_spec())
-    return _verus_prop("C04", tier, seed, [("fnsig", None, None), ("ptr_lowering", None, None), ("fn_abi", r"::FunctionSig::(abi|is_variadic)::", None), ("link_name", None, None), ("method_wrapper", None, None)], {
+    return _verus_prop("C04", tier, seed, [("fnsig", None, None), ("ptr_lowering", None, None), ("fn_abi", r"::FunctionSig::(abi|is_variadic)::", None), ("link_name", None, None), ("method_wrapper", None, None), ("var_const", None, None)], {
         "trusted_base": INCRATE_TRUST + ["calling-convention oracle: clang-c/Index.h CXCallingConv values x Rust reference ABI strings (kani_incrate/function_abi.rs)"],
         "functions_under_contract": ["bindgen/ir/function.rs: get_abi (Kani in-crate), FunctionSig::abi, FunctionSig::is_variadic (Verus unit fn_abi)",
                                      "bindgen/codegen/mod.rs: utils::fnsig_argument_type, utils::fnsig_return_ty_internal (Verus unit fnsig); the Pointer/Reference arm of <Type as TryToRustTy>::try_to_rust_ty (Verus unit ptr_lowering, block extracted by rule R18)",
                                      "bindgen/codegen/mod.rs: the receiver and constructor statements of Method::codegen_method (Verus unit method_wrapper, statements R18): the C++ `this` argument becomes `&self` (const method) or `&mut self`; static methods and constructors get no receiver; a constructor drops `this` and returns Self",
+                                     "bindgen/ir/var.rs: the mutability decision of Var::parse (unit var_const: nested fn is_const_through_arrays + let-statement, termination by type depth): a global is immutable exactly when its type, as spelled or behind typedefs, is const through every array dimension (found and repaired F16)",
                                      "bindgen/codegen/mod.rs: the `let symbol = ..` statement of <Var as CodeGenerator>::codegen (Verus unit link_name, let-statement R18, verified against the contract of names_will_be_identical_after_mangling): an overridden link name is always spelled out with #[link_name] (found and repaired F13), otherwise the compiler's symbol is named unless it is the Rust name or its platform decoration",
                                      "bindgen/codegen/mod.rs: utils::names_will_be_identical_after_mangling (Verus unit link_name, all name lengths; std str/slice operations replaced by Seq-specified env functions, rule R21)"],
         "assumptions": ["get_abi: every u32 CXCallingConv value (loop-free, full domain)",
